@@ -558,6 +558,17 @@ func (f *Frame) applyContract(st *State, in ssa.Instruction, ct *Contract, sig *
 			}
 		}
 	}
+	// recursion variant: caller and callee both carry a function-level `decreases` clause
+	if fn != nil && ct.Decreases != nil && vc.c != nil && vc.c.Decreases != nil && vc.mayReach(fn, vc.fn) {
+		callee, ok1 := vc.trClause(sc, ct.Decreases)
+		caller, ok2 := vc.trClause(vc.entryScope(), vc.c.Decreases)
+		if ok1 && ok2 {
+			vc.oblige(st, "dec", anchor+":variant", And(Le(IntLit(0), callee), Lt(callee, caller)), clauseProps(vc.c, vc.c.Decreases),
+				"recursion variant decreases at the call of "+name+": "+ct.Decreases.Src+" < "+vc.c.Decreases.Src, posOf(in))
+		}
+	} else if fn != nil && vc.fn != nil && vc.c != nil && vc.c.Decreases != nil && ct.Decreases == nil && vc.mayReach(fn, vc.fn) {
+		vc.specErrors = append(vc.specErrors, "recursion through "+name+", which has no `decreases` clause, although "+vc.funcName()+" declares one")
+	}
 	// panics
 	var panicConds []Term
 	for _, pc := range ct.Panics {
